@@ -311,6 +311,49 @@ func genWide(e *emitter, prop string, tier string) {
 				e.emit(opCase("wide", "Expand", nil, []*TJ{x, idxT("i64", []int{len(t)}, t)}, nil))
 			}
 		}
+	case "C12":
+		codes := []int32{1, 2, 3, 4, 5, 6, 7, 9, 11, 12, 13}
+		for i := 0; i < 3*n; i++ {
+			code := codes[r.Intn(len(codes))]
+			rank := r.Intn(5)
+			dims := make([]int64, rank)
+			cnt := 1
+			for j := range dims {
+				dims[j] = int64([]int{1, 2, 3, 5, 7, 4, 6}[r.Intn(7)])
+				cnt *= int(dims[j])
+			}
+			have := cnt
+			switch r.Intn(8) {
+			case 0:
+				have = cnt + 1
+			case 1:
+				if cnt > 0 {
+					have = cnt - 1
+				}
+			}
+			w := codeWidth[code]
+			vals := patterns(w, have, uint64(r.Intn(17)))
+			t := &TPJ{DataType: code, Dims: dims}
+			if r.Intn(2) == 0 {
+				t.Raw, t.HasRaw = leBytes(vals, w), true
+				if r.Intn(10) == 0 && len(t.Raw) > 0 {
+					t.Raw = t.Raw[:len(t.Raw)-1]
+				}
+			} else if !typedField(t, code, vals) {
+				continue
+			}
+			e.emit(decodeCase("wide", t))
+		}
+	case "C14":
+		for i := 0; i < 2*n; i++ {
+			dt := []string{"f32", "f64", "i32", "i64", "bool", "u8", "str"}[r.Intn(6)]
+			a := wShape(r, r.Intn(5))
+			b := wPartner(r, a)
+			if r.Intn(2) == 0 {
+				a, b = b, a
+			}
+			e.emit(bcastCase([]string{"multidir", "unidir"}[r.Intn(2)], wData(r, dt, a), wData(r, dt, b)))
+		}
 	case "C09":
 		for i := 0; i < n; i++ {
 			s := wShape(r, 1+r.Intn(4))
